@@ -727,6 +727,7 @@ func TestVerif_C19_Zebra(t *testing.T) {
 	var seeds []c19lib.Seed
 	scratch := c19lib.NewChecker(r.Fork())
 	accepted, offered := 0, 0
+	curRep := true // fault pairs (thorough) only for the seeds of the representative flavours
 	addSeed := func(name string, data []byte, es []*c19lib.Entry) {
 		if len(es) == 0 || data == nil {
 			return
@@ -739,10 +740,11 @@ func TestVerif_C19_Zebra(t *testing.T) {
 				accepted++
 			}
 		}
-		seeds = append(seeds, c19lib.Seed{Name: name, Data: data, Entries: es})
+		seeds = append(seeds, c19lib.Seed{Name: name, Data: data, Entries: es, NoPairs: !curRep})
 	}
 	for _, fe := range per {
 		f := fe.f
+		curRep = f.rep
 		hs := int(HeaderSize(f.v))
 		// serialised client messages: body to the matching decoders, whole message to ReceiveSingleMsg
 		seenKind := map[string]int{}
@@ -843,6 +845,7 @@ func TestVerif_C19_Zebra(t *testing.T) {
 			}
 		}
 	}
+	curRep = true
 	// one header seed per version
 	for v := MinZapiVer; v <= MaxZapiVer; v++ {
 		h := &Header{Len: 0x1234, Marker: HeaderMarker(v), Version: v, VrfID: 7, Command: 9}
